@@ -36,8 +36,13 @@ def regular_var(t):
     return z3.is_const(t) and not z3.is_string_value(t)
 
 
+REGULAR_MODE = False     # set per property (Spec.regular_strings): keep single-string predicates in InRe form
+
+
 def is_regular(v):
     """v is a string variable, or the suffix view s[k:] of one: predicates on it stay regular."""
+    if not REGULAR_MODE:
+        return False
     if isinstance(v, VLazySuffix):
         return regular_var(v.base)
     return isinstance(v, (VStr, VBytes)) and regular_var(v.term)
@@ -195,18 +200,32 @@ def slice_(ctx, t, lo, hi, lo_const=True, hi_const=True):
     key = (t.get_id(), lo_s.get_id(), hi_s.get_id() if hi is not n else 'end')
     if key in ctx.slice_cache:
         return ctx.slice_cache[key]
+    ctx.keep.extend([t, lo_s, hi_s])
 
     def norm(x):            # negative indices count from the end
         return z3.If(x < 0, z3.If(n + x < 0, 0, n + x), z3.If(x > n, n, x))
-    lo_n = norm(lo)
-    hi_n = n if hi is n else norm(hi)
-    hi_n = z3.If(hi_n < lo_n, lo_n, hi_n)
-    a = ctx.fresh('sl_a', StringSort)
+    # when the path condition already implies 0 <= lo <= hi <= len, no clamping terms are needed
+    in_range = z3.And(lo >= 0, lo <= hi, hi <= n) if hi is not n else z3.And(lo >= 0, lo <= n)
+    plain = not ctx.feasible(z3.Not(in_range))
+    if plain:
+        lo_n, hi_n = lo, hi
+    else:
+        lo_n = norm(lo)
+        hi_n = n if hi is n else norm(hi)
+        hi_n = z3.If(hi_n < lo_n, lo_n, hi_n)
+    lo_is0 = z3.is_int_value(z3.simplify(lo_n)) and z3.simplify(lo_n).as_long() == 0
     m = ctx.fresh('sl_m', StringSort)
-    c = ctx.fresh('sl_c', StringSort)
-    ctx.assume(t == z3.Concat(a, m, c))
-    ctx.assume(z3.Length(a) == z3.simplify(lo_n))
-    ctx.assume(z3.Length(m) == z3.simplify(hi_n - lo_n))
+    if lo_is0:
+        c = ctx.fresh('sl_c', StringSort)
+        ctx.assume(z3.And(t == z3.Concat(m, c), z3.Length(m) == z3.simplify(hi_n)), defines=[m, c])
+    elif hi is n:
+        a = ctx.fresh('sl_a', StringSort)
+        ctx.assume(z3.And(t == z3.Concat(a, m), z3.Length(a) == z3.simplify(lo_n)), defines=[a, m])
+    else:
+        a = ctx.fresh('sl_a', StringSort)
+        c = ctx.fresh('sl_c', StringSort)
+        ctx.assume(z3.And(t == z3.Concat(a, m, c), z3.Length(a) == z3.simplify(lo_n),
+                          z3.Length(m) == z3.simplify(hi_n - lo_n)), defines=[a, m, c])
     ctx.slice_cache[key] = m
     return m
 
